@@ -1,8 +1,12 @@
 ------------------------- MODULE MC_ErrorAlgebra -------------------------
 EXTENDS ErrorAlgebra, Json
+\* deviations recorded as known findings: where one of them predicts something else than the design, the
+\* vector carries that prediction too (alt), so a mismatch equal to it gets the deviation's name as its key
+KnownDeviations == {"grpc.detail_after_inherited"}
+Alts == {d \in KnownDeviations : PredD({d}) # obs}
 \* Gen mode: print every terminal state once as a vector (case + predicted observation)
 Emit == pc = "done" =>
   PrintT(<<"VEC", ToJson(IF mode = "merge"
-                         THEN [mode |-> mode, leaves |-> leaves, tree |-> tree, pred |-> obs]
-                         ELSE [mode |-> mode, scase |-> scase, pred |-> obs])>>)
+                         THEN [mode |-> mode, leaves |-> leaves, tree |-> tree, pred |-> obs, alt |-> [d \in Alts |-> PredD({d})]]
+                         ELSE [mode |-> mode, scase |-> scase, pred |-> obs, alt |-> [d \in Alts |-> PredD({d})]])>>)
 ===========================================================================
